@@ -5,7 +5,7 @@ use crate::error::ParserError;
 
 /// The optional character postfix that specifies the type of a name.
 /// Example: A$ denotes a string variable
-#[derive(Clone, Copy, Debug, Eq, Hash, PartialEq)]
+#[derive(Clone, Copy, Debug, Eq, Hash, Ord, PartialEq, PartialOrd)]
 pub enum TypeQualifier {
     /// `!` Single-precision
     BangSingle,
